@@ -332,6 +332,12 @@ func runStmt(ctx context.Context, s *Sess, st *Stmt, w wire.DataWriter, params [
 		case "panic":
 			c.CB("op", r)
 			panic("scripted statement panic")
+		case "panicp": // a handler bug that needs client-supplied parameters (only reachable through Execute)
+			if len(params) > 0 {
+				c.CB("op", r)
+				var none []wire.Parameter
+				_ = none[len(params)] // index out of range, as a careless handler would
+			}
 		case "copy":
 			err = runCopy(ctx, c, st, w, op.Copy)
 			if err != nil {
